@@ -704,10 +704,16 @@ func (s *Sim) choose(kind string, n int, label func() string, strat func() int) 
 	ch := Choice{Kind: kind, N: n, C: c}
 	if s.cfg.KeepLabels {
 		ch.Label = label()
+		if traceTime {
+			ch.Label = time.Since(s.start).String() + " " + ch.Label
+		}
 	}
 	s.trace = append(s.trace, ch)
 	return c
 }
+
+// traceTime (VERIF_TRACE_TIME=1, debugging aid): decision labels carry the simulated time
+var traceTime = os.Getenv("VERIF_TRACE_TIME") == "1"
 
 // ---- the scheduler ---------------------------------------------------------
 
